@@ -394,6 +394,7 @@ class Atom:
 
 
 ZERO = {'k': 'int', 'cv': 0, 'ty': 'int'}
+MIRROR = {'<': '>', '>': '<', '<=': '>=', '>=': '<=', '==': '==', '!=': '!='}
 
 
 def atoms_of(cond, sense):
@@ -418,14 +419,49 @@ def atoms_of(cond, sense):
         if op in NEG:
             l, r = c['l'], c['r']
             # (x) == 0 / != 0 where x is itself a condition
+            # orientation is not meaning: a constant on the left is mirrored to the right (0 > x  ==  x < 0); a comparison of
+            # two non-constants is reported in both orientations, so that a predicate written for `a < b` also sees `b > a`
+            if cval(unwrap(l)) is not None and cval(unwrap(r)) is None:
+                l, r, op = r, l, MIRROR[op]
             lu = unwrap(l)
             if cval(unwrap(r)) == 0 and op in ('==', '!=') and isinstance(lu, dict) and \
                     (lu.get('k') == 'un' and lu['op'] == '!' or lu.get('k') == 'bin' and lu['op'] in NEG or
                      lu.get('k') == 'bin' and lu['op'] in ('&&', '||')):
                 return atoms_of(lu, sense == (op == '!='))
-            return [Atom(l, op if sense else NEG[op], r)]
+            o = op if sense else NEG[op]
+            if cval(unwrap(r)) is None and cval(unwrap(l)) is None:
+                return [Atom(l, o, r), Atom(r, MIRROR[o], l)]
+            return [Atom(l, o, r)]
     # truthiness of an arbitrary value
     return [Atom(c, '!=' if sense else '==', ZERO)]
+
+
+def cond_cut(cond, sense, pred):
+    """does knowing `cond == sense` establish an atom satisfying pred whichever way it came about?
+    conjunctions need one such conjunct, disjunctions need it in every disjunct (a value merged by the CFG, e.g.
+    `!(a || b)` as a whole condition, is decided the same way as the split form)"""
+    c = unwrap(cond)
+    if isinstance(c, dict):
+        if c.get('k') == 'un' and c['op'] == '!':
+            return cond_cut(c['e'], not sense, pred)
+        if c.get('k') == 'bin' and c['op'] in ('&&', '||'):
+            conj = (c['op'] == '&&') == bool(sense)
+            l, r = cond_cut(c['l'], sense, pred), cond_cut(c['r'], sense, pred)
+            return (l or r) if conj else (l and r)
+        if c.get('k') == 'bin' and c['op'] in ('==', '!=') and cval(unwrap(c['r'])) == 0:
+            lu = unwrap(c['l'])
+            if isinstance(lu, dict) and (lu.get('k') == 'un' and lu['op'] == '!' or lu.get('k') == 'bin' and lu['op'] in ('&&', '||')):
+                return cond_cut(lu, sense == (c['op'] == '!='), pred)
+    return any(pred(a) for a in atoms_of(cond, sense))
+
+
+def cmp_forms(e):
+    """both orientations [(l, op, r), (r, mirrored op, l)] of a comparison expression, [] for anything else -
+    for rules that match a comparison directly rather than through atoms_of"""
+    c = unwrap(e)
+    if not isinstance(c, dict) or c.get('k') != 'bin' or c['op'] not in MIRROR:
+        return []
+    return [(c['l'], c['op'], c['r']), (c['r'], MIRROR[c['op']], c['l'])]
 
 
 # --------------------------------------------------------------------------
@@ -538,6 +574,10 @@ class Fn:
             b.term_ln = bd.get('term_ln', 0)
             b.label = bd.get('label')
             for i, ed in enumerate(bd['events']):
+                # x += 1 / x -= 1 are the same stores as x++ / x--: one canonical form for the rules
+                if ed.get('ev') == 'STORE' and ed.get('op') in ('+=', '-=') and cval(unwrap(ed.get('rhs'))) == 1:
+                    ed = dict(ed, op='++' if ed['op'] == '+=' else '--')
+                    ed.pop('rhs', None)
                 b.events.append(Ev(ed, b.id, i, self))
             if not b.noreturn:
                 for s in bd['succs']:
@@ -884,7 +924,7 @@ class Fn:
             if fb.cond is None:
                 return True
             if lab is True or lab is False:
-                ats = atoms_of(fb.cond, lab)
+                return not cond_cut(fb.cond, lab, lambda a: atom_pred(a, fb))
             elif isinstance(lab, tuple) and lab[0] == 'case' and lab[1] == lab[2]:
                 ats = [Atom(fb.cond, '==', {'k': 'int', 'cv': lab[1]})]
             else:
